@@ -1058,6 +1058,10 @@ func (c *EvalCtx) call(n *Node) Val {
 		// imports_count(imports, "path"): how many elements have that QualifiedName
 		sl, ok := arg(0).(SliceV)
 		if !ok {
+			if op, isOp := arg(0).(Opaque); isOp {
+				// the list was handed to a callee that may have changed it: unknown
+				return mkVar("importscount!"+sanitize(op.Tag), SInt)
+			}
 			specErr(n, "imports_count: slice expected")
 		}
 		want := arg(1)
